@@ -65,36 +65,29 @@ theorem specType_eq {z : Zone} {q : Query} (hany : anyNotAtOwner z q = false) :
   · have : (q.type == T_ANY) = false := beq_false_of_ne h
     simp [this]
 
-/-- `isReferral` on a data RRset of the looked-up type -/
-theorem isReferral_data {z : Zone} {q : Query} {rr : RRset} (hrt : rr.type = effType z q)
-    (rest : List RRset) : isReferral (rr :: rest) q.type = false := by
-  unfold isReferral effType at *
-  by_cases h : q.type = T_ANY
-  · simp [h]
-  · have : (q.type == T_ANY) = false := beq_false_of_ne h
-    simp only [this, Bool.false_eq_true, if_false] at hrt
-    by_cases h2 : q.type = T_NS
-    · simp [h2]
-    · have : (rr.type == T_NS) = false := by rw [hrt]; exact beq_false_of_ne h2
-      simp [this]
+/-- `is_referral` is false on an RRset that is not a delegation NS RRset -/
+theorem isReferral_false {o : LName} {rr : RRset} (h : rr.type = T_NS → rr.name = o)
+    (rest : List RRset) : isReferral o (rr :: rest) = false := by
+  unfold isReferral
+  by_cases hns : rr.type = T_NS
+  · simp [h hns]
+  · simp [hns]
 
 /--
-**The code answers as RFC 1034 §4.3.2 / RFC 4592 prescribe** (rcode, answer section, and the
-authority section of negative answers and referrals) for every well-formed zone and query
-outside the recorded deviation classes.
+**The code answers as RFC 1034 §4.3.2 / RFC 4592 prescribe** — rcode, AA bit, answer section,
+and the authority section of negative answers and referrals — for every well-formed zone and
+query outside the recorded deviation classes (code as repaired by /repo af8bb96).
 
 Hypotheses (all decidable; each is violated by a kernel-checked witness in `C10Witness.lean`):
 `WildcardGap` — none of the RFC 4592 gaps at the query name or a CNAME target followed;
-`NestedCut` — at most one zone cut above each of these names; `nsAnyBelowCut`, `soaBelowCut` —
-the query is not NS/ANY/SOA at or below a cut; `cnameIntoCut` — no CNAME target followed lies at
-or below a cut; `anyNotAtOwner` — ANY only for names that own RRsets.
+`NestedCut` — at most one zone cut above each of these names; `cnameIntoCut` — no CNAME target
+followed lies at or below a cut; `anyNotAtOwner` — ANY only for names that own RRsets.
 -/
 theorem impl_eq_spec_partial {z : Zone} {o : LName} {q : Query}
     (hwf : zoneWF z o = true)
     (hgap : WildcardGap z o q = false) (hnest : NestedCut z o q = false)
-    (hns : nsAnyBelowCut z o q = false) (hsoa : soaBelowCut z o q = false)
     (hcn : cnameIntoCut z o q = false) (hany : anyNotAtOwner z q = false) :
-    conformsModAA (answerImpl z o q) (answerSpec MAX_CNAME_DEPTH z o q) = true := by
+    conforms (answerImpl z o q) (answerSpec MAX_CNAME_DEPTH z o q) = true := by
   have wf := wf_of_zoneWF hwf
   by_cases hin : o <:+ q.name
   · have hzo : zoneOf o q.name = true := zoneOf_iff.2 hin
@@ -143,27 +136,15 @@ theorem impl_eq_spec_partial {z : Zone} {o : LName} {q : Query}
     cases hres : resolve z o q.name t with
     | referral ns =>
       rw [hres] at hnode
-      obtain ⟨hil, hnt, hcuts⟩ := hnode
-      have href : referralAA z o q = true := by
-        simp only [referralAA, hanc, htdef, noCut, Bool.true_and]
-        cases hc : cuts z o q.name t with
-        | nil => exact absurd hc hcuts
-        | cons _ _ => rfl
-      have hq1 : ¬ q.type = T_NS ∧ ¬ q.type = T_ANY := by
-        simp only [nsAnyBelowCut, href, Bool.true_and, Bool.or_eq_false_iff, beq_eq_false_iff_ne] at hns
-        exact hns
-      have hq2 : ¬ q.type = T_SOA := by
-        simp only [soaBelowCut, href, Bool.true_and, beq_eq_false_iff_ne] at hsoa
-        exact hsoa
+      obtain ⟨hil, hnt, hno, _⟩ := hnode
       have hc : (ns.type == T_CNAME) = false := by rw [hnt]; decide
       have hchase : chase z o t MAX_CNAME_DEPTH [q.name] q.name = ([], .referral ns) := by
         simp [chase, hres]
       have hc2 : (ns.type == T_CNAME && t != T_CNAME) = false := by simp [hc]
-      have hq2' : (q.type == T_SOA) = false := beq_false_of_ne hq2
-      have hir : isReferral [ns] q.type = true := by
-        simp [isReferral, hnt, hq1.1, hq1.2]
-      simp only [hil, hc2, Bool.false_eq_true, if_false, hchase, hq2', hir, if_true]
-      simp [conformsModAA]
+      have hir : isReferral o [ns] = true := by
+        simp [isReferral, hnt, hno]
+      simp only [hil, hc2, Bool.false_eq_true, if_false, hchase, hir, if_true]
+      simp [conforms, conformsModAA]
     | noData =>
       rw [hres] at hnode
       obtain ⟨hil, hex⟩ := hnode
@@ -171,7 +152,7 @@ theorem impl_eq_spec_partial {z : Zone} {o : LName} {q : Query}
         simp [chase, hres]
       have hne := implNameExists_eq z q.name
       simp only [hil, hne, hex, if_true, hchase, hsoaL]
-      simp [conformsModAA]
+      simp [conforms, conformsModAA]
     | nxDomain =>
       rw [hres] at hnode
       obtain ⟨hil, hex⟩ := hnode
@@ -179,26 +160,25 @@ theorem impl_eq_spec_partial {z : Zone} {o : LName} {q : Query}
         simp [chase, hres]
       have hne := implNameExists_eq z q.name
       simp only [hil, hne, hex, Bool.false_eq_true, if_false, hzo, if_true, hchase, hsoaL]
-      simp [conformsModAA]
+      simp [conforms, conformsModAA]
     | data rr =>
       rw [hres] at hnode
-      obtain ⟨hil, hrt⟩ := hnode
+      obtain ⟨hil, hrt, hown⟩ := hnode
       have hchase : chase z o t MAX_CNAME_DEPTH [q.name] q.name = ([], .data rr) := by
         simp [chase, hres]
       have hc : (rr.type == T_CNAME && t != T_CNAME) = false := by
         rw [hrt]; cases h : (t == T_CNAME) <;> simp [bne, h]
-      have hir : isReferral [rr] q.type = false := isReferral_data (by rw [htdef]; exact hrt) []
+      have hir : isReferral o [rr] = false := isReferral_false hown []
       simp only [hil, hc, Bool.false_eq_true, if_false, hchase, hir]
-      simp [conformsModAA]
+      simp [conforms, conformsModAA]
     | cname rr tg =>
       rw [hres] at hnode
       obtain ⟨hil, hrt, htne, htg⟩ := hnode
       have hc : (rr.type == T_CNAME && t != T_CNAME) = true := by
         simp [hrt, htne]
-      have hir : ∀ rest, isReferral (rr :: rest) q.type = false := by
+      have hir : ∀ rest, isReferral o (rr :: rest) = false := by
         intro rest
-        have : (rr.type == T_NS) = false := by rw [hrt]; decide
-        simp [isReferral, this]
+        exact isReferral_false (by rw [hrt]; intro h; exact absurd h (by decide)) rest
       -- the chain on both sides
       have hv : ∀ m ∈ (if MAX_CNAME_DEPTH - 1 = 0 ∨ ¬ o <:+ tg ∨ tg ∈ [q.name] then []
             else visited z o t (MAX_CNAME_DEPTH - 1) (tg :: [q.name]) tg),
@@ -237,7 +217,7 @@ theorem impl_eq_spec_partial {z : Zone} {o : LName} {q : Query}
         have hstep' : chase z o t MAX_CNAME_DEPTH [q.name] q.name = ([rr], .chainEnd) := by
           rw [hstep, if_pos hs2]
         rw [if_pos hstop, hstep']
-        simp [conformsModAA]
+        simp [conforms, conformsModAA]
       · have hs2 : (!isAncestorOrSelf o tg || [q.name].contains tg || MAX_CNAME_DEPTH - 1 == 0) = false := by
           simp only [not_or, Decidable.not_not] at hstop
           obtain ⟨_, h2, h3⟩ := hstop
@@ -269,30 +249,51 @@ theorem impl_eq_spec_partial {z : Zone} {o : LName} {q : Query}
           cases hcc : cuts z o m t with
           | nil => exact hcm hcc
           | cons _ _ => rw [hcc] at h1; simp at h1
-        | data rr' => simp [conformsModAA, finTail]
-        | noData => simp [conformsModAA, finTail]
-        | nxDomain => simp [conformsModAA, finTail]
-        | chainEnd => simp [conformsModAA, finTail]
+        | data rr' => simp [conforms, conformsModAA, finTail]
+        | noData => simp [conforms, conformsModAA, finTail]
+        | nxDomain => simp [conforms, conformsModAA, finTail]
+        | chainEnd => simp [conforms, conformsModAA, finTail]
   · -- not in the zone: REFUSED on both sides
     have hzo : zoneOf o q.name = false := by
       cases h : zoneOf o q.name with
       | false => rfl
       | true => exact absurd (zoneOf_iff.1 h) hin
     have hanc : isAncestorOrSelf o q.name = false := anc_false_iff.2 hin
-    simp [answerImpl, answerSpec, hzo, hanc, conformsModAA]
+    simp [answerImpl, answerSpec, hzo, hanc, conforms, conformsModAA]
 
 
 /-! ### the AA bit -/
 
-/-- `build_authoritative_response` sets AA on every response for a name in the zone -/
-theorem impl_aa_true {z : Zone} {o : LName} {q : Query} (hin : zoneOf o q.name = true) :
-    (answerImpl z o q).aa = true := by
+theorem lookupAnswers_eq (z : Zone) (o n : LName) (qt : Nat) :
+    lookupAnswers z o n qt =
+      match innerLookup z n (if qt == T_ANY then replaceAny z n else qt) with
+      | some a =>
+        if (a.type == T_CNAME && (if qt == T_ANY then replaceAny z n else qt) != T_CNAME) = true then
+          .ok ((if qt == T_ANY then replaceAny z n else qt),
+            chaseCnames z n a (if qt == T_ANY then replaceAny z n else qt),
+            (chaseCnames z n a (if qt == T_ANY then replaceAny z n else qt)).getLast?.filter (·.type != T_CNAME))
+        else .ok ((if qt == T_ANY then replaceAny z n else qt), [a], some a)
+      | none =>
+        .error (if z.any (fun r => r.name == n || zoneOf n r.name) then .nameExists
+                else if zoneOf o n then .nxDomain else .refused) := by
+  unfold lookupAnswers
+  dsimp only
+  cases innerLookup z n (if qt == T_ANY then replaceAny z n else qt) <;> rfl
+
+/-- `build_authoritative_response` clears AA exactly when the lookup returned a delegation -/
+theorem impl_aa {z : Zone} {o : LName} {q : Query} (hin : zoneOf o q.name = true) :
+    (answerImpl z o q).aa = !isReferral o (okAnswers (lookupAnswers z o q.name q.type)) := by
   unfold answerImpl buildAuthoritative
   simp only [hin, if_true]
-  split
-  · rfl
-  · rfl
-  · split <;> rfl
+  cases hla : lookupAnswers z o q.name q.type with
+  | error e => cases e <;> simp [okAnswers, isReferral]
+  | ok p =>
+    obtain ⟨t', a, term⟩ := p
+    dsimp only [okAnswers]
+    by_cases hr : isReferral o a = true
+    · simp [hr]
+    · have : isReferral o a = false := by cases h : isReferral o a <;> simp_all
+      simp [this]
 
 theorem resolve_not_referral_of_noCut {z : Zone} {o n : LName} {t : Nat} (h : cuts z o n t = [])
     (ns : RRset) : resolve z o n t ≠ .referral ns := by
@@ -321,23 +322,86 @@ theorem spec_aa_true_of_noCut {z : Zone} {o : LName} {q : Query} {d : Nat}
       generalize (chase z o t d (tg :: [q.name]) tg).2 = fin
       cases fin <;> rfl
 
+theorem spec_aa_false_of_cut {z : Zone} {o : LName} {q : Query} {d : Nat}
+    (hin : isAncestorOrSelf o q.name = true) (hany : anyNotAtOwner z q = false)
+    {c : LName} {rest : List LName} (hc : cuts z o q.name (effType z q) = c :: rest) :
+    (answerSpec (d + 1) z o q).aa = false := by
+  have hty := specType_eq hany
+  obtain ⟨ns, hns⟩ := cut_has_ns (z := z) (o := o) (n := q.name) (t := effType z q) (c := c)
+    (by rw [hc]; simp)
+  unfold answerSpec
+  simp only [hin, Bool.not_true, Bool.false_eq_true, if_false, hty]
+  have hres : resolve z o q.name (effType z q) = .referral ns := by
+    simp only [resolve, hc]
+    rw [← get_eq_rrsetAt, hns]
+  simp [chase, hres]
+
 /--
-**AA bit**: with no zone cut at or above the query name (`referralAA` false) the AA bit is the
-prescribed one, so together with `impl_eq_spec_partial` the whole answer `conforms`.  On a
-referral the code sets AA where the algorithm clears it (`witness_referral_aa`).
+**AA bit** (code as repaired by /repo af8bb96): for every well-formed zone and every query with
+none of the RFC 4592 gaps *at the query name* the AA bit is the prescribed one — cleared exactly
+on referrals, nested zone cuts included (the referral then names the wrong cut, `NestedCut`, but
+is a referral all the same).
 -/
-theorem aa_correct_partial {z : Zone} {o : LName} {q : Query}
-    (hany : anyNotAtOwner z q = false) (href : referralAA z o q = false) :
+theorem aa_correct_partial {z : Zone} {o : LName} {q : Query} (hwf : zoneWF z o = true)
+    (hgap : wildcardGapAt z o q.name (effType z q) = false) (hany : anyNotAtOwner z q = false) :
     (answerImpl z o q).aa = (answerSpec MAX_CNAME_DEPTH z o q).aa := by
+  have wf := wf_of_zoneWF hwf
   by_cases hin : zoneOf o q.name = true
   · have hanc : isAncestorOrSelf o q.name = true := hin
-    have hnc : cuts z o q.name (effType z q) = [] := by
-      simp only [referralAA, hanc, Bool.true_and, Bool.not_eq_false', noCut] at href
-      cases hc : cuts z o q.name (effType z q) with
-      | nil => rfl
-      | cons _ _ => rw [hc] at href; simp at href
-    rw [impl_aa_true hin]
-    exact (spec_aa_true_of_noCut (d := MAX_CNAME_DEPTH - 1) hanc hany hnc).symm
+    have hsuf : o <:+ q.name := zoneOf_iff.1 hin
+    rw [impl_aa hin, lookupAnswers_eq]
+    have heff : (if q.type == T_ANY then replaceAny z q.name else q.type) = effType z q := rfl
+    rw [heff]
+    cases hcuts : cuts z o q.name (effType z q) with
+    | nil =>
+      rw [show MAX_CNAME_DEPTH = (MAX_CNAME_DEPTH - 1) + 1 from rfl,
+        spec_aa_true_of_noCut hanc hany hcuts]
+      have hnest : nestedCutAt z o q.name (effType z q) = false := by simp [nestedCutAt, hcuts]
+      have hnode := node_eq wf hsuf hnest hgap
+      cases hres : resolve z o q.name (effType z q) with
+      | referral ns => exact absurd hres (resolve_not_referral_of_noCut hcuts ns)
+      | data rr =>
+        rw [hres] at hnode
+        obtain ⟨hil, hrt, hown⟩ := hnode
+        have hc : (rr.type == T_CNAME && effType z q != T_CNAME) = false := by
+          rw [hrt]; cases h : (effType z q == T_CNAME) <;> simp [bne, h]
+        simp [hil, hc, okAnswers, isReferral_false hown]
+      | noData => rw [hres] at hnode; simp [hnode.1, okAnswers, isReferral]
+      | nxDomain => rw [hres] at hnode; simp [hnode.1, okAnswers, isReferral]
+      | cname rr tg =>
+        rw [hres] at hnode
+        obtain ⟨hil, hrt, htne, _⟩ := hnode
+        have hc : (rr.type == T_CNAME && effType z q != T_CNAME) = true := by simp [hrt, htne]
+        have hnr : ∀ rest, isReferral o (rr :: rest) = false := fun rest =>
+          isReferral_false (by rw [hrt]; intro h; exact absurd h (by decide)) rest
+        simp [hil, hc, okAnswers, chaseCnames, hnr]
+    | cons c rest =>
+      rw [show MAX_CNAME_DEPTH = (MAX_CNAME_DEPTH - 1) + 1 from rfl,
+        spec_aa_false_of_cut hanc hany hcuts]
+      -- the walk returns the NS RRset of the deepest cut
+      have hw := walk_eq wf q.name (effType z q) q.name hsuf
+      have hfne : (suffixes q.name).filter (isCutP z o q.name (effType z q)) ≠ [] := by
+        intro h
+        rw [cuts_eq, h] at hcuts
+        simp at hcuts
+      cases hf : (suffixes q.name).filter (isCutP z o q.name (effType z q)) with
+      | nil => exact absurd hf hfne
+      | cons c' rest' =>
+        have hc'mem : c' ∈ cuts z o q.name (effType z q) := by
+          rw [cuts_eq, hf]; simp
+        obtain ⟨ns, hns⟩ := cut_has_ns hc'mem
+        have hc'o := cut_ne_origin hc'mem
+        obtain ⟨_, hnn, hnt⟩ := get_some hns
+        rw [hf] at hw
+        simp only [List.head?_cons, Option.bind_some, hns] at hw
+        have hil : innerLookup z q.name (effType z q) = some ns := by
+          simp [innerLookup, lookupExact, hw]
+        have hc : (ns.type == T_CNAME && effType z q != T_CNAME) = false := by
+          have : (ns.type == T_CNAME) = false := by rw [hnt]; decide
+          simp [this]
+        have hr : isReferral o [ns] = true := by
+          simp [isReferral, hnt, hnn, hc'o]
+        simp [hil, hc, okAnswers, hr]
   · have hzo : zoneOf o q.name = false := by
       cases h : zoneOf o q.name <;> simp_all
     have hanc : isAncestorOrSelf o q.name = false := hzo
@@ -386,7 +450,7 @@ theorem negative_has_soa {z : Zone} {o : LName} {q : Query} (hwf : zoneWF z o = 
       obtain ⟨t', a, term⟩ := p
       have hne := lookupAnswers_ok_nonempty hla
       simp only [hla] at hneg ⊢
-      by_cases hr : isReferral a q.type = true
+      by_cases hr : isReferral o a = true
       · exfalso
         simp only [hr, if_true] at hneg
         cases a with
@@ -394,13 +458,13 @@ theorem negative_has_soa {z : Zone} {o : LName} {q : Query} (hwf : zoneWF z o = 
         | cons r rest =>
           have hrt : r.type = T_NS := by
             simp only [isReferral, Bool.and_eq_true, beq_iff_eq] at hr
-            exact hr.1.1
+            exact hr.1
           rcases hneg with h | ⟨_, _, h⟩
           · cases h
           · exact h r (by simp) hrt
       · exfalso
-        have hr' : isReferral a q.type = false := by
-          cases h : isReferral a q.type <;> simp_all
+        have hr' : isReferral o a = false := by
+          cases h : isReferral o a <;> simp_all
         simp only [hr', Bool.false_eq_true, if_false] at hneg
         rcases hneg with h | ⟨_, h, _⟩
         · cases h
